@@ -16,6 +16,7 @@ INDEX = {'A': np.array([1000, 1001, 1002, 1003, 1004, 1005], dtype='float64'),
          'V': np.array([100, 101, 103, 106, 110, 115], dtype='float64')}
 BOUNDS = {('A', 'all'): (1000.0, 1005.0), ('A', 'win'): (1002.0, 1004.0), ('B', 'all'): (20.0, 25.0), ('B', 'win'): (22.0, 24.0),
           ('V', 'all'): (100.0, 115.0), ('V', 'win'): (103.0, 110.0), ('N', 'all'): (float('nan'),) * 2, ('N', 'win'): (float('nan'),) * 2, ('U', 'all'): (0.0, 9999.0)}
+HEADER = {'H1': 'HISTORY', 'H2': 'HISTORY-RENAMED'}
 PAYLOAD = {'P0': bytes(range(40, 60)), 'P1': bytes(range(90, 97)) * 40}
 VALS = {('int', '1'): I(1), ('float', '1'): F(1.0), ('bool', '1'): BOOL(True), ('str', '1'): S('1'),
         ('int', '0'): I(0), ('float', '0'): F(0.0), ('float', 'nz'): F(-0.0)}
@@ -48,7 +49,7 @@ def _skeleton(p, fid, final=None):
     """The fixed skeleton.  With `final` (fresh process) every object is created directly with its final values."""
     f = final or {}
     p.file(fid, vrl=f.get('vrl', 256))
-    lf = p.lf(fid, lf=fid, fh_id='HISTORY')
+    lf = p.lf(fid, lf=fid, fh_id=HEADER[f.get('hid', 'H1')])
     o = {'lf': lf}
     o['o1'] = p.origin(lf, name='O1', origin_reference=5, file_type=f.get('file_type', S('1')))
     o['o2'] = p.origin(lf, name='O2', fsn=2, origin_reference=9)
@@ -122,6 +123,9 @@ def history_program(pid, hist):
             texts = [S(f's{n}-{j}') for j in range(op['n'])]
             p.set(o['com'], 'text', L(*texts))
             final['text'] = texts
+        elif k == 'set_header':
+            p.set_header(o['lf'], 'header_id', HEADER[op['id']])
+            final['hid'] = op['id']
         elif k == 'relabel':
             p.set_sul(1, 'max_record_length', op['vrl'])
             final['vrl'] = op['vrl']
